@@ -127,4 +127,18 @@ CLAIMS = {
                    'outputs are ready are never inserted into the plan.',
         'not_decided': 'equality of the executed command set with a reference make-semantics model.',
     },
+    'C10': {
+        'design': '5.10',
+        'technique': 'splice/partition consistency + provenance of inserted ranges + who-may-write/call + path search (typestate of deps knowledge) over clang CFG facts',
+        'decides': 'dependency loaders insert discovered inputs at inputs_.end() - order_only_deps_ with a matching '
+                   'implicit_deps_ increment and never touch order_only_deps_; the deps-log loader inserts the whole '
+                   'recorded array, the depfile loader stores a node and registers an out-edge for every parsed '
+                   'entry, nobody edits the parsed lists, ExtractDeps turns every parsed entry into a recorded '
+                   'node; only State::AddIn/AddOut/AddValidation mark manifest provenance and loaders use GetNode '
+                   '(a vanished discovered dep means rebuild, not error); deps are recorded for every output and a '
+                   'failed extraction records nothing; depfile/gcc/msvc paths are canonicalised before interning; '
+                   'strong typestate: a first scan ends with discovered deps spliced in or deps_missing_ set '
+                   '(violated today: known finding).',
+        'not_decided': 'metamorphic equality with the variant of a scenario in which the dependency is declared.',
+    },
 }
